@@ -194,8 +194,13 @@ func c16cases(thorough bool) []c16case {
 	// ---- Add / Remove ----
 	x, y, z := "https://r1.example/n/x", "https://r1.example/n/y", "https://r1.example/n/z"
 	tOwnedC, tOwnedO, tForeign := "https://l.example/c/t1", "https://l.example/oc/t2", "https://r1.example/c/t3"
-	contents := map[string][]interface{}{tOwnedC: {x, "https://r9.example/keep", x, y}, tOwnedO: {y, x, "https://r9.example/keep2", x}, tForeign: {x, y}}
-	targetAlpha := []string{tOwnedC, tOwnedO, tForeign}
+	// ownership is a per-IRI question: a collection on this server's host that it does not own, and one
+	// on a foreign host that it does own
+	tLocalForeign, tRemoteOwned := "https://l.example/c/t4-other-tenant", "https://r1.example/oc/t5-ours"
+	notOwned := map[string]bool{tForeign: true, tLocalForeign: true}
+	contents := map[string][]interface{}{tOwnedC: {x, "https://r9.example/keep", x, y}, tOwnedO: {y, x, "https://r9.example/keep2", x}, tForeign: {x, y},
+		tLocalForeign: {x, y, x}, tRemoteOwned: {y, x}}
+	targetAlpha := []string{tOwnedC, tOwnedO, tForeign, tLocalForeign, tRemoteOwned}
 	objAlpha := []interface{}{x, y, Emb("Note", z, "content", "embedded z")}
 	maxN := 2
 	if thorough {
@@ -242,7 +247,7 @@ func c16cases(thorough bool) []c16case {
 	contentsEmb := map[string][]interface{}{
 		tOwnedC:  {Emb("Note", x, "content", "stored embedded x"), "https://r9.example/keep", x, Emb("Note", y)},
 		tOwnedO:  {M{"type": "Link", "href": y}, Emb("Note", x), Emb("Note", "https://r9.example/keep2"), x},
-		tForeign: {Emb("Note", x), y}}
+		tForeign: {Emb("Note", x), y}, tLocalForeign: {Emb("Note", x), y, x}, tRemoteOwned: {Emb("Note", y), x}}
 	for _, typ := range []string{"Add", "Remove", "Remove/stored-embedded", "Add/stored-embedded"} {
 		contents := contents
 		if strings.HasSuffix(typ, "/stored-embedded") {
@@ -270,10 +275,13 @@ func c16cases(thorough bool) []c16case {
 						a.PutDoc(Doc("Collection", tOwnedC, "items", L(contents[tOwnedC])))
 						a.PutDoc(Doc("OrderedCollection", tOwnedO, "orderedItems", L(contents[tOwnedO])))
 						a.PutDoc(Doc("Collection", tForeign, "items", L(contents[tForeign]))) // cached foreign copy
+						a.PutDoc(Doc("Collection", tLocalForeign, "items", L(contents[tLocalForeign])))
+						a.PutDoc(Doc("OrderedCollection", tRemoteOwned, "orderedItems", L(contents[tRemoteOwned])))
+						a.NotOwned[tLocalForeign], a.OwnedExtra[tRemoteOwned] = true, true
 					}
 					c.model = func(r *Ref) {
 						for _, t := range ts {
-							if t == tForeign {
+							if notOwned[t] {
 								continue
 							}
 							doc := r.Store[t]
@@ -392,7 +400,7 @@ func shortVals(l []interface{}) []string {
 func C16(tier string) int {
 	res := NewResult("C16", tier, "exploration")
 	cases := c16cases(res.Thorough())
-	res.Rule = fmt.Sprintf("Update: stored object with each subset of {name, content, summary, an unknown member} x update object assigning each member in {absent, new value, null}; two objects with every pair of independent assignments (81 x 81) and three-object triples; Delete: 1..%d objects of 3 types with/without published/updated, IRI/embedded, model clock; Add/Remove: every sequence of 1..%d objects (IRI/embedded) x every sequence of distinct targets over {owned Collection with duplicates, owned OrderedCollection with duplicates, foreign}, the stored collections spelling their entries as IRIs or as a mixture of IRIs, embedded objects and a Link named by href; Like and Block with the same object sequences, Like also with its 'actor' naming another local actor / several actors / a remote actor / nobody (the ids go to the liked collection of the outbox's owner); each type with object/target absent or empty; Social-only and both protocols; every Like / Block and every third other request again with application hooks wrapped around the default callbacks; %d base requests; plus every ordered pair (thorough: a third of the triples) of single-object Add / Remove / Like requests as a history on ONE application, the reference model applied step by step; oracle: a reference model on JSON (merge + null deletion, Tombstone fields, collection edits on owned targets only, liked front insertion, Block undelivered, 400 and unchanged state for missing members)", map[bool]int{false: 2, true: 3}[res.Thorough()], map[bool]int{false: 2, true: 3}[res.Thorough()], len(cases))
+	res.Rule = fmt.Sprintf("Update: stored object with each subset of {name, content, summary, an unknown member} x update object assigning each member in {absent, new value, null}; two objects with every pair of independent assignments (81 x 81) and three-object triples; Delete: 1..%d objects of 3 types with/without published/updated, IRI/embedded, model clock; Add/Remove: every sequence of 1..%d objects (IRI/embedded) x every sequence of distinct targets over {owned Collection with duplicates, owned OrderedCollection with duplicates, foreign, a collection on the local host that another tenant owns, an owned collection on a foreign host}, the stored collections spelling their entries as IRIs or as a mixture of IRIs, embedded objects and a Link named by href; Like and Block with the same object sequences, Like also with its 'actor' naming another local actor / several actors / a remote actor / nobody (the ids go to the liked collection of the outbox's owner); each type with object/target absent or empty; Social-only and both protocols; every Like / Block and every third other request again with application hooks wrapped around the default callbacks; %d base requests; plus every ordered pair (thorough: a third of the triples) of single-object Add / Remove / Like requests as a history on ONE application, the reference model applied step by step; oracle: a reference model on JSON (merge + null deletion, Tombstone fields, collection edits on owned targets only, liked front insertion, Block undelivered, 400 and unchanged state for missing members)", map[bool]int{false: 2, true: 3}[res.Thorough()], map[bool]int{false: 2, true: 3}[res.Thorough()], len(cases))
 	res.Assumptions = []string{"JSON nulls are looked for inside the activity's object (ActivityPub 6.3.1), which is what the statement's wording names", "the stored copy of the activity and the outbox entry are C05's",
 		"one collection named twice as target is excluded here (C09's known finding)"}
 	var mu sync.Mutex
@@ -527,7 +535,7 @@ func C16(tier string) int {
 	var hist []c16case
 	for _, c := range cases {
 		if (c.family == "add" || c.family == "remove" || c.family == "like") && c.kind == ap.Both && c.want == "201" && !strings.Contains(c.name, "stored-entries") {
-			if objs := asList(c.body["object"]); len(objs) == 1 {
+			if objs, tgs := asList(c.body["object"]), asList(c.body["target"]); len(objs) == 1 && (len(tgs) <= 1 || res.Thorough()) {
 				hist = append(hist, c)
 			}
 		}
